@@ -38,8 +38,8 @@ impl Axecutor {
         if let Some(last) = self.state.trace.last_mut() {
             lvl = last.level;
             match last.variant {
-                TraceVariant::Call => lvl += 1,
-                TraceVariant::Return => lvl -= 1,
+                TraceVariant::Call => lvl = lvl.saturating_add(1),
+                TraceVariant::Return => lvl = lvl.saturating_sub(1),
                 TraceVariant::Jump => {
                     // If we have seen this exact jump before, we just increment the count
                     if last.instr_ip == instr_ip
@@ -113,7 +113,8 @@ impl Axecutor {
             if entry.count > 1 {
                 trace.push_str(&format!(
                     "{}{}: {} => {} ({} times)\n",
-                    "  ".repeat(entry.level as usize),
+                    // returns can outnumber calls, in which case the level is negative: no indentation
+                    "  ".repeat(entry.level.max(0) as usize),
                     instruction_symbol,
                     instruction,
                     target_symbol,
@@ -122,7 +123,8 @@ impl Axecutor {
             } else {
                 trace.push_str(&format!(
                     "{}{}: {} => {}\n",
-                    "  ".repeat(entry.level as usize),
+                    // returns can outnumber calls, in which case the level is negative: no indentation
+                    "  ".repeat(entry.level.max(0) as usize),
                     instruction_symbol,
                     instruction,
                     target_symbol,
